@@ -4,6 +4,7 @@ import os, sys, json, time, hashlib, importlib, inspect, multiprocessing as mp, 
 ROOT = os.path.dirname(os.path.dirname(os.path.abspath(__file__)))
 PY = sys.executable
 REPO = os.environ.get('PYG_BASE_REPO', '/repo')
+OUT = os.environ.get('VERIF_OUT') or ROOT        # where evidence/ and replays/ are written: /verif, or VERIF_OUT for runs against a scratch copy of the repository (tools/seed_sweep.py --copy)
 
 class Ob:
     """one proof obligation.
@@ -216,7 +217,7 @@ def main(pid, tier, jobs = None, only = None, seed = None):
     log('== %s tier=%s obligations=%d jobs=%d seed=%d known-findings=%s%s' % (pid, tier, len(obs), jobs, seed, sorted(known), ' tier-wall=%ds' % tier_wall if tier_wall else ''))
     results = run_obligations(heavy, jobs, seed, sorted(known), log, deadline = (t0 + tier_wall) if tier_wall else None)
     byid = {r['id']: r for r in results}
-    os.makedirs(os.path.join(ROOT, 'replays', pid), exist_ok = True)
+    os.makedirs(os.path.join(OUT, 'replays', pid), exist_ok = True)
     violations = []; spurious = 0; known_hit = {}; harness_error = False; nrep = 0
     for ob in obs:
         r = byid[ob.id]
@@ -225,7 +226,7 @@ def main(pid, tier, jobs = None, only = None, seed = None):
         r['verdict'] = verdict(r)
         for f in r.get('failures', []):
             nrep += 1
-            path = os.path.join(ROOT, 'replays', pid, '%s.%d.json' % (ob.id.replace('/', '_'), nrep))
+            path = os.path.join(OUT, 'replays', pid, '%s.%d.json' % (ob.id.replace('/', '_'), nrep))
             rec = dict(property = pid, obligation = ob.id, label = f['label'], model = f['model'], desc = ob.desc)
             json.dump(rec, open(path, 'w'), indent = 1, sort_keys = True)
             failed, raw = replay_file(pid, path)
@@ -252,7 +253,7 @@ def main(pid, tier, jobs = None, only = None, seed = None):
     for m in conf['mismatch']:
         if 'obligation' not in m: harness_error = True; continue
         ob = [o for o in obs if o.id == m['obligation']][0]; r = byid[ob.id]; nrep += 1
-        path = os.path.join(ROOT, 'replays', pid, '%s.%d.json' % (ob.id.replace('/', '_'), nrep))
+        path = os.path.join(OUT, 'replays', pid, '%s.%d.json' % (ob.id.replace('/', '_'), nrep))
         json.dump(dict(property = pid, obligation = ob.id, label = m['failed'][0], model = m['model'], desc = ob.desc, source = 'witness/conformance replay'),
                   open(path, 'w'), indent = 1, sort_keys = True)
         cls = None
@@ -274,9 +275,9 @@ def main(pid, tier, jobs = None, only = None, seed = None):
         print('VIOLATION property=%s replay=%s obligation=%s check=%s' % (pid, path, oid, label))
     wall = time.time() - t0
     ev = build_evidence(pid, tier, seed, mod, obs, results, counts, conf, spurious, len(violations), wall, known_hit)
-    os.makedirs(os.path.join(ROOT, 'evidence'), exist_ok = True)
+    os.makedirs(os.path.join(OUT, 'evidence'), exist_ok = True)
     # a run restricted with --only is a debugging run: its (partial) evidence goes next to the replays, never over the evidence of the full check
-    evpath = os.path.join(ROOT, 'replays', pid + '.partial-evidence.json') if only else os.path.join(ROOT, 'evidence', pid + '.json')
+    evpath = os.path.join(OUT, 'replays', pid + '.partial-evidence.json') if only else os.path.join(OUT, 'evidence', pid + '.json')
     os.makedirs(os.path.dirname(evpath), exist_ok = True)
     json.dump(ev, open(evpath, 'w'), indent = 1, sort_keys = True, default = str)
     log('== %s %s: %s; spurious models=%d; conformance replays=%d; wall %.1fs' % (pid, tier, counts, spurious, conf['replayed'], wall))
@@ -295,7 +296,7 @@ def conformance(pid, obs, byid, log, per_ob = 2):
         for k, w in sorted((r.get('witnesses') or {}).items()): items.append(dict(obligation = ob.id, model = w, witness = k))
     out = dict(replayed = 0, mismatch = [])
     if not items: return out
-    path = os.path.join(ROOT, 'replays', pid, '_conformance.json')
+    path = os.path.join(OUT, 'replays', pid, '_conformance.json')
     json.dump(items, open(path, 'w'))
     env = dict(os.environ); env['PYTHONPATH'] = ROOT + os.pathsep + env.get('PYTHONPATH', '')
     try:
